@@ -617,6 +617,7 @@ fn main() {
     let mut k5_hits = 0usize;
     let mut k6_hits = 0usize;
     let mut k6_aborts = 0usize;
+    let mut k8_hits = 0usize;
     for m in &mutants {
         let out = res.get(&m.id).cloned().unwrap_or_else(|| "not-run".into());
         let (acc, first) = vmap.get(&m.id).cloned().unwrap_or((false, String::new()));
@@ -627,6 +628,16 @@ fn main() {
             json_str(&m.path.file_name().unwrap().to_string_lossy()), json_str(&std::fs::read_to_string(&m.path).unwrap_or_default()),
             m.pre.iter().map(|s| json_str(s)).collect::<Vec<_>>().join(","), m.clang.iter().map(|s| json_str(s)).collect::<Vec<_>>().join(","));
         let text_has_complex = || std::fs::read_to_string(&m.path).map_or(false, |t| t.contains("_Complex"));
+        // region of known finding macro_division_by_zero_aborts: an object-like macro whose replacement list
+        // divides (or takes the remainder) by a literal zero — the external `cexpr` evaluator panics inside the
+        // libclang visitor callback, which cannot unwind
+        let text_has_macro_div_zero = || std::fs::read_to_string(&m.path).map_or(false, |t| t.lines().any(|l| {
+            let l = l.trim_start();
+            if !l.starts_with("#define") && !l.starts_with("# define") { return false; }
+            let c: String = l.chars().filter(|ch| !ch.is_whitespace() && *ch != '(' && *ch != ')').collect();
+            let b = c.as_bytes();
+            (0..b.len()).any(|i| (b[i] == b'/' || b[i] == b'%') && i + 1 < b.len() && b[i + 1] == b'0' && !(i + 2 < b.len() && (b[i + 2].is_ascii_alphanumeric() || b[i + 2] == b'.')))
+        }));
         if out.starts_with("panic") && out.contains("libclang error; possible causes include") {
             k5_hits += 1;
         } else if (out.starts_with("panic") && out.contains("Non floating-type complex?")) || (out.starts_with("abort") && text_has_complex()) {
@@ -634,6 +645,8 @@ fn main() {
             // unwind: the process aborts)
             k6_hits += 1;
             if out.starts_with("abort") { k6_aborts += 1; }
+        } else if (out.starts_with("abort") || (out.starts_with("panic") && out.contains("divide by zero"))) && text_has_macro_div_zero() {
+            k8_hits += 1;
         } else if out.starts_with("panic") || out.starts_with("abort") || out == "timeout" || out == "not-run" {
             let key = if out.starts_with("panic") { norm_panic(&out) } else { out.split(' ').next().unwrap_or("").to_owned() };
             if !findings.iter().any(|f| f.key == key) {
@@ -918,6 +931,7 @@ fn main() {
     kv(&mut j, "nesting_table", format!("{{{}}}", nest_table.iter().map(|(k, v)| format!("{}:{}", json_str(k), v)).collect::<Vec<_>>().join(",")));
     kv(&mut j, "nested_record_probe_depth30_20s", json_str(&nested_record_probe));
     kv(&mut j, "known_libclang_null_tu", format!("{{\"probe\":{},\"probe_in_region\":{},\"mutant_hits\":{}}}", json_str(&k5_probe), k5_probe_known, k5_hits));
+    kv(&mut j, "known_macro_div_zero", format!("{{\"hits\":{k8_hits}}}"));
     kv(&mut j, "known_integer_complex", format!("{{\"probe\":{},\"probe_in_region\":{},\"hits\":{},\"of_which_process_aborts\":{}}}", json_str(&k6_probe), k6_probe_known, k6_hits, k6_aborts));
     kv(&mut j, "known_opaque_debug_assert", format!("{{\"probe\":{},\"probe_in_region\":{},\"random_option_set_hits\":{}}}", json_str(&k7_probe), k7_probe_known, k7_hits));
     kv(&mut j, "known_token_option_panics", format!("[{}]", k3_panics.iter().map(|s| json_str(s)).collect::<Vec<_>>().join(",")));
